@@ -106,7 +106,7 @@ pub fn sys_suites() -> Vec<Suite> {
             head_len: HEAD_LEN,
             op_len: OP_LEN,
             max_ops: 30,
-            quick_cases: 3_000,
+            quick_cases: 12_000,
             thorough_cases: 300_000,
             run: run_sys,
             direct: Some(direct_with::<C01Oracle>),
@@ -118,7 +118,7 @@ pub fn sys_suites() -> Vec<Suite> {
             head_len: HEAD_LEN,
             op_len: OP_LEN,
             max_ops: 25,
-            quick_cases: 2_000,
+            quick_cases: 8_000,
             thorough_cases: 200_000,
             run: run_sys_hostile,
             direct: Some(direct_with::<C01Oracle>),
